@@ -234,6 +234,7 @@ type engLockReq struct {
 
 type engSched struct {
 	mu       sync.Mutex
+	rmu      sync.RWMutex // guards the resume map (read by request goroutines, written by the scheduler)
 	arrive   chan engArrival
 	resume   map[int]chan error
 	parked   map[int]string
@@ -260,9 +261,22 @@ type engSched struct {
 	lastCommit  *ledger.ChainedLog // the log the next commit must chain onto (harness's own bookkeeping)
 }
 
+func (s *engSched) resumeCh(actor int) chan error {
+	s.rmu.RLock()
+	defer s.rmu.RUnlock()
+	return s.resume[actor]
+}
+
+func (s *engSched) setResumeCh(actor int) {
+	s.rmu.Lock()
+	s.resume[actor] = make(chan error)
+	s.rmu.Unlock()
+}
+
 func (s *engSched) Yield(actor int, point string) {
+	ch := s.resumeCh(actor)
 	s.arrive <- engArrival{actor: actor, point: point}
-	<-s.resume[actor]
+	<-ch
 }
 
 func accConflict(a, b command.Accounts) bool {
@@ -314,8 +328,9 @@ func (l *engLocker) Lock(ctx context.Context, acc command.Accounts) (command.Unl
 	} else {
 		s.queue = append(s.queue, engLockReq{a, acc})
 		s.mu.Unlock()
+		ch := s.resumeCh(a)
 		s.arrive <- engArrival{actor: a, point: "lock-blocked", kind: 3}
-		<-s.resume[a]
+		<-ch
 	}
 	return func(ctx context.Context) {
 		s.mu.Lock()
@@ -539,7 +554,7 @@ func runEngineSchedule(reqs []engReq, funding [][]string, ameta [][]string, plan
 
 	s := &engSched{arrive: make(chan engArrival, 256), resume: map[int]chan error{}, parked: map[int]string{}, waiting: map[int]bool{},
 		lastPoint: map[int]string{}, dry: map[int]bool{}, actorGen: map[int]int{}, deadGen: map[int]bool{}}
-	s.resume[actorP] = make(chan error)
+	s.setResumeCh(actorP)
 	r := &rng{s: plan.Seed*0x9e3779b97f4a7c15 + 7}
 	ctx0 := logging.TestingContext()
 	mon := &engMonitor{s: s, st: st}
@@ -556,9 +571,10 @@ func runEngineSchedule(reqs []engReq, funding [][]string, ameta [][]string, plan
 	newCommander := func() {
 		gen := s.gen
 		st.gate = func(logs []*ledger.ChainedLog) error {
+			ch := s.resumeCh(actorP)
 			s.arrive <- engArrival{actor: actorP, kind: 2, logs: logs}
 			// a gate call of a dead generation is never resumed
-			err := <-s.resume[actorP]
+			err := <-ch
 			_ = gen
 			return err
 		}
@@ -593,7 +609,7 @@ func runEngineSchedule(reqs []engReq, funding [][]string, ameta [][]string, plan
 
 	start := func(i int) {
 		rq := reqs[i]
-		s.resume[i] = make(chan error)
+		s.setResumeCh(i)
 		s.dry[i] = rq.Dry
 		s.actorGen[i] = s.gen
 		ctx := verifhook.With(context.WithValue(ctx0, engActorKey{}, i), s, i)
@@ -717,7 +733,7 @@ func runEngineSchedule(reqs []engReq, funding [][]string, ameta [][]string, plan
 				}
 				s.trace = append(s.trace, J{"crash": step})
 				for i := range reqs {
-					if s.actorGen[i] == s.gen && !finished[i] && s.resume[i] != nil {
+					if s.actorGen[i] == s.gen && !finished[i] && s.resumeCh(i) != nil {
 						crashed = append(crashed, i)
 					}
 				}
@@ -725,7 +741,7 @@ func runEngineSchedule(reqs []engReq, funding [][]string, ameta [][]string, plan
 				s.holders, s.queue = nil, nil
 				s.persBusy, s.pending, s.appendOrder, s.persisted = false, 0, nil, 0
 				s.waiting = map[int]bool{}
-				s.resume[actorP] = make(chan error)
+				s.setResumeCh(actorP)
 				st.mu.Lock()
 				s.lastCommit = nil
 				if len(st.logs) > 0 {
@@ -787,7 +803,7 @@ func runEngineSchedule(reqs []engReq, funding [][]string, ameta [][]string, plan
 					// the runner dies: nothing more happens in this generation; treat as crash at the next step
 					plan.Crash = step + 1
 					s.mu.Unlock()
-					s.resume[actorP] <- fmt.Errorf("injected store failure")
+					s.resumeCh(actorP) <- fmt.Errorf("injected store failure")
 				} else {
 					n := s.gateBatch
 					// waiters of this batch wake up
@@ -807,7 +823,7 @@ func runEngineSchedule(reqs []engReq, funding [][]string, ameta [][]string, plan
 					}
 					s.mu.Unlock()
 					before := len(st.logs)
-					s.resume[actorP] <- nil
+					s.resumeCh(actorP) <- nil
 					for { // InsertLogs appends right after the gate; wait for it so that reads are well defined
 						st.mu.Lock()
 						k := len(st.logs)
@@ -847,7 +863,7 @@ func runEngineSchedule(reqs []engReq, funding [][]string, ameta [][]string, plan
 				}
 				s.lastPoint[a] = pt
 				s.mu.Unlock()
-				s.resume[a] <- nil
+				s.resumeCh(a) <- nil
 			}
 			step++
 		}
